@@ -1382,6 +1382,26 @@ def template_input(inputfile, dumpfile, flux=False, verbose=False):
     verbose : :class:`bool`, optional
         If ``True``, print lots of extra information.
     """
+    #
+    # template_metadata() overwrites RUN2D and RUN1D.  Remember the values
+    # (or absence) found on entry and put them back however we leave.
+    #
+    orig = dict([(r, os.environ.get(r)) for r in ('RUN2D', 'RUN1D')])
+    try:
+        _template_input(inputfile, dumpfile, flux=flux, verbose=verbose)
+    finally:
+        for r in orig:
+            if orig[r] is None:
+                if r in os.environ:
+                    del os.environ[r]
+            else:
+                os.environ[r] = orig[r]
+    return
+
+
+def _template_input(inputfile, dumpfile, flux=False, verbose=False):
+    """Does the actual work of :func:`template_input`, which see.
+    """
     import pickle
     from astropy.constants import c as cspeed
     from .. import __version__ as pydl_version
@@ -1664,14 +1684,6 @@ def template_input(inputfile, dumpfile, flux=False, verbose=False):
     hdulist.writeto(outfile+'.fits', overwrite=True)
     if metadata['object'].lower() != 'star':
         plot_eig(outfile+'.fits')
-    #
-    # Clean up
-    #
-    for r in ('run2d', 'run1d'):
-        if metadata['orig_'+r] is None:
-            del os.environ[r.upper()]
-        else:
-            os.environ[r.upper()] = metadata['orig_'+r]
     return
 
 
